@@ -79,6 +79,8 @@ func runC18(w *World, c *Check) {
 	c.Rule("C18.identity", "the authenticator of the token names the client of the credentials: crealm and cname come from Credentials.Domain()/CName() and are not overwritten", 3)
 	c.Rule("C18.body", "a request body is replayed from the tee buffer on both retry paths; the 401 response is drained and closed before retrying", 4)
 	c.Rule("C18.header", "Authorization: Negotiate base64(token for the intended SPN); errors return before the header is set; challenge = 401 + WWW-Authenticate: Negotiate; redirects drop the Authorization header", 9)
+	c.Rule("C18.utc", "the authenticator's timestamps are UTC (an acceptor other than this library rejects a GeneralizedTime with a zone offset)", 10)
+	ruleClockUTC(w, c, "C18.utc")
 	c.Rule("C18.token", "the mechanism token carries the ticket and session key given, with the RFC 4121 §4.1.1 authenticator checksum", 6)
 
 	sp := w.SSAPkgs["spnego"]
@@ -298,10 +300,33 @@ func runC18(w *World, c *Check) {
 	}
 	// redirect drops the Authorization header of the target
 	okDel := false
+	delBlocks := map[*ssa.BasicBlock]bool{}
 	for _, dc := range fa.CallsDeep(`net/http\.\(Header\)\.Del`) {
 		a := dc.fa.CallArgs(dc.ci)
 		if len(a) == 2 && a[1] == `"Authorization"` && strings.Contains(a[0], "reqTarget") && strings.HasSuffix(a[0], ".Header") {
 			okDel = true
+			delBlocks[dc.site.Block()] = true
+		}
+	}
+	// … on every way to following the redirect (a used token must not be sent a second time: the
+	// acceptor's replay cache refuses it), not only for some targets
+	if okDel {
+		removed := map[Edge]bool{}
+		for _, b := range doFn.Blocks {
+			for k, sb := range b.Succs {
+				if delBlocks[sb] {
+					removed[Edge{b, k}] = true
+				}
+			}
+		}
+		for _, ci := range fa.Calls(`spnego\.\(\*Client\)\.do`) {
+			a := fa.CallArgs(ci)
+			if len(a) < 2 || !strings.Contains(a[1], "reqTarget") || delBlocks[ci.Block()] {
+				continue
+			}
+			if p := pathTo(doFn.Blocks[0], removed, nil, map[*ssa.BasicBlock]bool{ci.Block(): true}); p != nil && !delBlocks[doFn.Blocks[0]] {
+				okDel = false
+			}
 		}
 	}
 	c.Decide(okDel, "C18.header", fk, "redirect-drops-authorization", w.Pos(doFn.Pos()), "the redirect target does not inherit the Authorization header", "no Header.Del(\"Authorization\") on the redirect target")
